@@ -404,6 +404,9 @@ pub fn c16(opts: &Opts) -> Report {
     let mut rep = Report::new("C16");
     let mut dopt = dag_opts(opts);
     dopt.max_cmds = 4;
+    if !cfg!(miri) {
+        dopt.max_nodes = 8;
+    }
     if want(opts, "dag") {
         run_family(&mut rep, opts, &FamilyRun { prop: "C16", part: "dag", cases: opts.n(if cfg!(miri) { 4 } else { 400 }, 10000), gen: &|s| gen::gen_dag(s, &dopt), set: ExecSet::Full, pools: &[EXECUTOR_SITES, CHANNEL_SITES], nontrivial: &|s, _| s.submodels > 0, predict: true, also: &[] });
     }
